@@ -58,6 +58,44 @@ CHECKS.update({
             "numpy.linalg.lstsq; plotting positions are full-sample ranks", "DESIGN.md §4 C13"),
 })
 
+CHECKS.update({
+    "C01": ("exploration",
+            "bounded-exhaustive lattice (family tuples x every conditional_on structure x alpha x n_points x contour "
+            "class) on the real code; Rosenblatt-radius oracle with mpmath beta",
+            "2-D: all 8x8 family pairs x both structures; 3-D: core families^3 x all 6 structures; 4-D: cyclic family "
+            "assignments x all 24 structures; every contour point mapped back with the model's own cdfs (scalar given) "
+            "must have norm beta (mpmath reference), directions distinct, 2-D angles 2 pi k/n, max x0 = marginal quantile.",
+            "the model's own cdfs (anchored by C05/C08); alpha grid", "DESIGN.md §4 C01"),
+    "C02": ("exploration",
+            "bounded-exhaustive lattice (model x alpha x limits kind x cell sizes) on the real code; cell probabilities "
+            "recomputed by explicit loops, region/threshold oracle",
+            "2-D and 3-D models incl. a multi-modal one; default/generous/tight/reversed limits; scalar, isotropic and "
+            "anisotropic deltas; documented cell probabilities, fm = least dense enclosed cell, content bracket, "
+            "RuntimeWarning iff the grid cannot hold 1-alpha.",
+            "model cdfs; grid read back from the contour object", "DESIGN.md §4 C02"),
+    "C03": ("exploration",
+            "bounded-exhaustive lattice (point cloud x n x alpha x all 19 divisors of 360) on the real code; "
+            "order-statistic bracket oracle for every polygon edge",
+            "Every edge of the polygon must lie on a line whose offset along its normal is between the order statistics "
+            "bracketing every definition of the empirical (1-alpha)-quantile; normals advance by exactly the step; "
+            "exactly 360/step vertices; default sample size int(100/alpha).",
+            "numpy partition; orientation/start angle not prescribed", "DESIGN.md §4 C03"),
+    "C04": ("exploration",
+            "bounded-exhaustive lattice (model sample x n x alpha x deg_step x allowed_error x theta range x AND/OR) on the "
+            "real code; exceedance recomputed per point",
+            "Every searched point on its ray with recomputed exceedance within allowed_error*alpha unless the precision "
+            "warning was emitted; documented closure; OR points dropped only when legitimately outside 1.1*max "
+            "(monotonicity argument), never altered; construction repeatable.",
+            "the precision warning exempts a whole contour", "DESIGN.md §4 C04"),
+    "C15": ("exploration",
+            "bounded-exhaustive: all k-subsets (k<=6/7) of a 4x4 lattice x scalings x flags for the line sorter, plus the "
+            "C02 grid family for HDC boundary cells, on the real code; numpy-shift boundary + union-find oracle",
+            "Returned coordinates equal (as multiset) the boundary cells (3^n neighbourhood) of the region {density>=fm}; "
+            "single 2-D region in line-sorter order; one coordinate set per connected component; the sorter returns a "
+            "permutation for every planar point set of the small scope and for digital discs.",
+            "region from fm (C02); ties at fm skipped (counted)", "DESIGN.md §4 C15"),
+})
+
 NOT_APPLICABLE = {
 }
 
